@@ -11,3 +11,4 @@ import Rpki.Props.C07
 #print axioms Rpki.C07.bad_length_fixed
 #print axioms Rpki.C07.skip_terminates
 #print axioms Rpki.C07.control_roundtrip
+#print axioms Rpki.C07.try_read_spec
